@@ -248,6 +248,71 @@ def run_shards(prop, shards, budget_s):
 
 
 # --------------------------------------------------------------------------------------------
+# the same shards in another kind of interpreter
+
+
+def child_shards_main():
+    """Entry of the child started by run_in_other_interpreter: argv = <module> <json shards>."""
+    import importlib
+
+    mod = importlib.import_module(sys.argv[1])
+    shards = json.loads(sys.argv[2])
+    ensure_pkg_on_path()
+    mod.setup()
+    from . import envs
+
+    envs.STRIDE = 0  # the environments are the parent's business
+    ctx = Ctx(0, time.time() + 900)
+    envs.CTX = ctx
+    for sh in shards:
+        mod.run_shard(tuple(sh), ctx)
+    r = ctx.result()
+    print("\n@@RESULT@@" + json.dumps(dict(violations=[dict(key=v["key"], case=_jsonable(v["case"]), msg=v["msg"]) for v in r["violations"]], evaluations=r["evaluations"], executions=r["executions"], nodes=r["nodes"], optimize=sys.flags.optimize)))
+
+
+def run_in_other_interpreter(ctx, prop, shards, flags, what):
+    """Runs `shards` of the property module `prop` again in a fresh interpreter started with `flags` (-O: asserts
+    and `if __debug__:` blocks stripped; -OO: docstrings too). 'A fresh interpreter' of whatever kind is part of every
+    statement's "for all client programs"; the enumeration and the oracle are the very same code as in the parent.
+    Counts are merged into ctx; a violation is reported with the flags in its key and case."""
+    import subprocess
+
+    code = "import sys; sys.path.insert(0, %r); from mc import core; core.child_shards_main()" % VERIF
+    env = dict(os.environ, VERIF_REPO=REPO, PYTHONHASHSEED="0", PYTHONDONTWRITEBYTECODE="1")
+    env.pop("PYTHONOPTIMIZE", None)
+    p = subprocess.run(["/venv/bin/python"] + list(flags) + ["-c", code, prop.__name__, json.dumps([list(s) for s in shards])], capture_output=True, text=True, env=env, timeout=1500)
+    out = [ln for ln in p.stdout.splitlines() if ln.startswith("@@RESULT@@")]
+    if p.returncode != 0 or not out:
+        raise HarnessFault("child interpreter %s failed for %s: %s" % (" ".join(flags), prop.__name__, p.stderr[-600:]))
+    r = json.loads(out[-1][len("@@RESULT@@"):])
+    ctx.evaluations += r["evaluations"]
+    ctx.executions += r["executions"]
+    ctx.nodes += r["nodes"]
+    ctx.edges += r["nodes"]
+    ctx.hist["cases_in_interpreter(%s)" % " ".join(flags)] += r["executions"]
+    for v in r["violations"]:
+        case = dict(v["case"]) if isinstance(v["case"], dict) else dict(case=v["case"])
+        case["interpreter_flags"] = list(flags)
+        ctx.violation("%s:%s" % ("".join(flags), v["key"]), case, "in a fresh interpreter started with %s (%s): %s" % (" ".join(flags), what, v["msg"]))
+
+
+def replay_in_other_interpreter(prop, case):
+    """Replays a case that carries interpreter_flags in such an interpreter."""
+    import subprocess
+
+    flags = case["interpreter_flags"]
+    inner = {k: v for k, v in case.items() if k != "interpreter_flags"}
+    code = "import sys, json; sys.path.insert(0, %r); from mc import core; import importlib; core.ensure_pkg_on_path(); m = importlib.import_module(sys.argv[1]); m.setup(); vs = m.replay(json.loads(sys.argv[2])); print('@@N@@%%d' %% len(vs))" % VERIF
+    env = dict(os.environ, VERIF_REPO=REPO, PYTHONHASHSEED="0", PYTHONDONTWRITEBYTECODE="1")
+    env.pop("PYTHONOPTIMIZE", None)
+    p = subprocess.run(["/venv/bin/python"] + list(flags) + ["-c", code, prop.__name__, json.dumps(inner)], capture_output=True, text=True, env=env, timeout=600)
+    n = [ln for ln in p.stdout.splitlines() if ln.startswith("@@N@@")]
+    if not n:
+        return [dict(key="interpreter", msg="replay child failed: %s" % p.stderr[-300:], case=case)]
+    return [dict(key="".join(flags), msg="still fails under %s" % " ".join(flags), case=case)] if int(n[-1][5:]) else []
+
+
+# --------------------------------------------------------------------------------------------
 # known findings
 
 
@@ -443,6 +508,8 @@ def _main(prop, args, t0):
             from . import envs
 
             vs = envs.replay_case(art["case"])  # E1-M case: self-contained (probe source, entry mode, earlier parse)
+        elif isinstance(art["case"], dict) and art["case"].get("interpreter_flags"):
+            vs = replay_in_other_interpreter(prop, art["case"])
         elif isinstance(art["case"], dict) and "environment" in art["case"]:
             from . import e1
 
